@@ -284,6 +284,50 @@ def gr_glue(c):
                 detail.update({"step": i, "op": e["op"], "harness_note": j.get("note", "")})
                 c.violation(detail["kind"], detail, {"spec": "GrHelper", "steps": [line(edges[x]["op"]) for x in seq[:i]]})
                 break
+    # a peer whose Restart Time is 0 (the usual "LLGR only" configuration): the restart timer is due the moment the session
+    # drops, so after the drop the state must be what the model reaches by `drop` followed at once by the timer's expiry
+    step_of = {}
+    for e in edges:
+        step_of[(vf.canon(e["pre"]), vf.canon(e["op"]))] = e
+    zero = []
+    for gr, ll in ((["v4"], []), (["v4", "v6"], []), (["v4"], ["v4"]), (["v4", "v6"], ["v6"])):
+        ops = [{"k": "connect"}, {"k": "establish", "gr": gr, "llgr": ll, "nbit": False},
+               {"k": "announce", "f": "v4", "x": 1, "n": False, "c": False}, {"k": "drop", "reason": "io"}, {"k": "timer"}]
+        cur, ok = init, True
+        post = None
+        for o in ops:
+            cand = [e for (pk, ok_), e in step_of.items() if pk == cur and all(e["op"].get(k) == v or (isinstance(v, list) and sorted(e["op"].get(k, [])) == sorted(v)) for k, v in o.items())]
+            if not cand:
+                ok = False
+                break
+            post = cand[0]["post"]
+            cur = vf.canon(post)
+        if ok:
+            zero.append((gr, ll, post))
+    if not zero:
+        raise vf.ToolError("gr_glue: the zero-restart-time histories are not in the model's graph")
+    zin = os.path.join(vf.WORK, "C10.zero.ev.in")
+    zout = os.path.join(vf.WORK, "C10.zero.ev.out")
+    with open(zin, "w") as f:
+        for i, (gr, ll, _) in enumerate(zero):
+            f.write(f"seq z{i}\nconnect\nestablish {fs(gr)} {fs(ll)} 0 0\nannounce v4 1 0 0\ndrop io\nsettle\n")
+    if os.path.exists(zout):
+        os.remove(zout)
+    rc, out = vf.daemon_test("event::verif_harness::gr_replay", env={"VERIF_IN": zin, "VERIF_OUT": zout}, timeout=600)
+    if rc != 0 or not os.path.exists(zout):
+        raise vf.ToolError(f"gr_replay (zero restart time) failed rc={rc}:\n{out[-2000:]}")
+    zgot = {(j["seq"], j["step"]): j for j in vf.read_jsonl(zout)}
+    for i, (gr, ll, post) in enumerate(zero):
+        real = norm_real(zgot[(f"z{i}", 5)]["state"])
+        model = norm_model(post)
+        mon = monitor(real)
+        if mon or real != model:
+            diff = {k: {"expected": model[k], "actual": real[k]} for k in model if model[k] != real[k]}
+            c.violation("glue.zero_restart_time", {"gr": gr, "llgr": ll, "failed": mon, "diff": diff,
+                                                   "why": "after a drop with Restart Time 0 the state is not the one after the restart timer's expiry"},
+                        {"spec": "GrHelper", "steps": [f"establish {fs(gr)} {fs(ll)} 0 (restart time 0)", "announce v4 1", "drop io", "(the timer fires)"]})
+            break
+    steps += 5 * len(zero)
     c.cov["parts"]["driver"] = {"model_transitions": total, "covered": covered, "sequences": len(seqs),
                                 "steps_replayed": steps, "reasons": reasons, "all_model_transitions": len(edges),
                                 "transition_classes": nclass,
